@@ -69,8 +69,8 @@ func verifMkPod(name string, annotations bool) *core_v1.Pod {
 			ver = "v2"
 		}
 	}
-	p.Labels = map[string]string{"app.kubernetes.io/name": ver, "ignored": "x", "team": ver, "team-x": "y"}
-	p.Annotations = map[string]string{"gostatsd.atlassian.com/env": aver, "other": "z"}
+	p.Labels = map[string]string{"app.kubernetes.io/name": ver, "ignored": "x", "team": ver, "team-x": "y", "other": "lo"}
+	p.Annotations = map[string]string{"gostatsd.atlassian.com/env": aver, "other": "z", "team": "at"}
 	return p
 }
 
@@ -92,6 +92,10 @@ var verifRegexCfgs = []verifRegexCfg{
 		}},
 	{annotation: regexp.MustCompile(`^gostatsd\.atlassian\.com/(?P<tag>.+)$`),
 		want: func(p *core_v1.Pod) []string { return []string{"env:" + p.Annotations["gostatsd.atlassian.com/env"]} }},
+	// both regexes, disagreeing on keys that occur as a label AND as an annotation ("team", "other"):
+	// labels are judged by the label regex only, annotations by the annotation regex only
+	{label: regexp.MustCompile(`^(?P<tag>team)$`), annotation: regexp.MustCompile(`^o(?P<tag>ther)$`),
+		want: func(p *core_v1.Pod) []string { return []string{"team:" + p.Labels["team"], "ther:" + p.Annotations["other"]} }},
 }
 
 func verifSameTags(got gostatsd.Tags, want []string) bool {
@@ -211,8 +215,8 @@ func VerifC13_AddLookUpdLook() { verifC13(4, []int{0, 2, 0, 2}) }
 func VerifC13_AddLookDelLook() { verifC13(4, []int{0, 2, 1, 2}) }
 
 // the other regex configurations (see verifRegexCfgs), symbolic choice
-func VerifC13_Regexes() { verifC13Cfg(2, []int{0, 2}, nondetIntIn(1, 3)) }
-func VerifC13_RegexesUpd() { verifC13Cfg(4, []int{0, 2, 0, 2}, nondetIntIn(1, 3)) }
+func VerifC13_Regexes() { verifC13Cfg(2, []int{0, 2}, nondetIntIn(1, 4)) }
+func VerifC13_RegexesUpd() { verifC13Cfg(4, []int{0, 2, 0, 2}, nondetIntIn(1, 4)) }
 
 func VerifC13_Twin() {
 	verifC13(2, nil)
